@@ -64,14 +64,22 @@ class Ctx:
         self.findings: List[Finding] = []
         self.rule_text: Dict[str, str] = {}
         self.floors: Dict[str, int] = {}
+        self.hard_floors: Dict[str, int] = {}
         self.notes: List[str] = []
         self.deferred: List[str] = []
 
     # -------------------------------------------------------------- recording
-    def rule(self, rule: str, text: str, floor: int = 0) -> None:
+    def rule(self, rule: str, text: str, floor: int = 0, hard: Optional[int] = None) -> None:
+        """Declare a rule. ``floor`` is the instance count confirmed by hand on the pinned tree (reported, and noted when
+        undershot); ``hard`` is the count below which the run fails as vacuous: by default 1 (the rule saw the code
+        at all), the full floor for rules that consist of evaluated clauses only (their instance count does not depend
+        on how the code is spelled), 0 for structural readings that only explain an evaluated clause."""
         self.rule_text[rule] = text
         if floor:
             self.floors[rule] = floor
+        if hard is None:
+            hard = floor if rule in EVALUATED_RULES else (1 if floor else 0)
+        self.hard_floors[rule] = hard
 
     def _where(self, fn: Optional[FuncInfo], node) -> Tuple[str, str, int, str]:
         func = fn.qualname.replace("cobra.", "", 1) if fn is not None else "<module>"
@@ -127,11 +135,23 @@ class Ctx:
             n = self.count(rule)
             if any(i["rule"] == rule and i["verdict"] != "holds" for i in self.instances):
                 continue  # the rule saw the code and reported: a verdict exists, it is not vacuous
-            if n < floor:
+            hard = self.hard_floors.get(rule, 1)
+            if n < hard:
                 raise AnalysisError(
-                    f"rule {rule} examined {n} instance(s), fewer than the {floor} confirmed by hand: "
+                    f"rule {rule} examined {n} instance(s), fewer than the {hard} it needs to be meaningful: "
                     f"the rule no longer sees the code it was written for (vacuous pass refused)"
                 )
+            if n < floor:
+                # fewer instances than on the pinned tree: the code is spelled differently (a structural rule skips what
+                # it does not recognise and leaves it to the evaluated clause of its property) - reported, not fatal
+                self.note(f"rule {rule} examined {n} instance(s), {floor} on the pinned tree: the code it reads is spelled differently; the clauses that were skipped are listed above")
+
+
+# rules that consist of evaluated clauses only: the number of instances is a property of the checker, not of the spelling
+EVALUATED_RULES = {
+    "C02.equation", "C05.formulation", "C06.formulation", "C07.eval", "C09.pfba", "C09.moma", "C09.room", "C09.abs", "C10.annot", "C11.roundtrip",
+    "C15.model", "C16.validate", "C17.formulation", "C18.formulation", "C19.blocked", "C19.fastcc", "C08.remover",
+}
 
 
 def load_known() -> List[dict]:
